@@ -109,6 +109,13 @@ def atoms_of_cond(f, R, i, truth, out):
     if k == 'CXXMemberCallExpr' and n['callee']['name'] == 'empty' and n['callee'].get('classq', '').startswith('std::') and n.get('obj') is not None:
         out.append((uncast(R.render(n['obj'])) + '.size', '==' if truth else '!=', '0', n['id']))
         return
+    # a bool local defined once from a condition stands for that condition
+    if k == 'DeclRefExpr' and n['decl'].get('dk') == 'local' and n.get('tc') == 'b':
+        from paths import local_init as _li2
+        ini = _li2(f, n['decl']['id'])
+        if ini is not None and n['decl']['id'] in R.single_def_locals():
+            atoms_of_cond(f, R, ini, truth, out)
+            return
     # bool(x) for an integer x: x != 0
     r = uncast(R.render(i))
     out.append((r, '!=' if truth else '==', '0', i))
@@ -830,6 +837,20 @@ def padded_to(prog, f, R, C, at_node):
     return out
 
 
+def size_tested_somewhere(f, R, C):
+    """function f compares the size of container C (or asks whether it is empty) somewhere"""
+    for m_ in f.nodes:
+        if m_['k'] == 'CXXMemberCallExpr' and m_['callee']['name'] in ('size', 'empty') and m_.get('obj') is not None and uncast(R.render(m_['obj'])) == C:
+            par = f.nodes[m_['p']] if m_.get('p') is not None else None
+            hops_ = 0
+            while par is not None and par['k'] in ('ImplicitCastExpr', 'ParenExpr', 'CXXStaticCastExpr', 'UnaryOperator') and hops_ < 4:
+                par = f.nodes[par['p']] if par.get('p') is not None else None
+                hops_ += 1
+            if m_['callee']['name'] == 'empty' or (par is not None and par['k'] == 'BinaryOperator' and par.get('op') in ('==', '!=', '<', '>', '<=', '>=')):
+                return True
+    return False
+
+
 def overrun_evidence(prog, s, ctx):
     """positive evidence that an unproved site can be reached with an index outside the container:
     E1 the only bound on the index is `<= size` (or == size): the index can equal the size;
@@ -871,6 +892,11 @@ def overrun_evidence(prog, s, ctx):
         if not any(size in (l, r) for l, op, r, _ in facts):
             # a test that mentions the container in another form (a count computed from it by a helper) is a guard the rule cannot
             # read, here or at the call sites of this function: not evidence of an overrun
+            # the author does test the size of this container somewhere in this function (through a flag, an enumeration, a
+            # switch ... that the path facts do not carry to this site): not "no test at all"
+            if size_tested_somewhere(f, R, C):
+                return None
+
             def as_argument(text):
                 # the container handed whole to something (a helper that computes a count from it), not one of its elements / members
                 return re.search(re.escape(C) + r'(?=[,)]|$)', text) is not None and '(' in text
@@ -890,7 +916,7 @@ def overrun_evidence(prog, s, ctx):
                 if any(re.search(re.escape(actual) + r'(?=[,)]|$)', t_) is not None and '(' in t_ for l, op, r, _ in cf_ for t_ in (l, r)):
                     return None
                 # the same criterion as at the site itself: some test of the size of that container precedes the call
-                if any((actual + '.size') in (l, r) for l, op, r, _ in cf_):
+                if any((actual + '.size') in (l, r) for l, op, r, _ in cf_) or size_tested_somewhere(g_, Rg_, actual):
                     return None
             return 'element %s is read with no test of %s (a shorter container reaches it)' % (In['cv'], size)
         return None
@@ -910,6 +936,21 @@ def overrun_evidence(prog, s, ctx):
                 if not related and (not grown or 'abs(' in I):
                     return 'the index %s is computed from `%s`, read from the file by %s, and nothing compares it with %s%s' % (
                         I, m_['decl']['name'], inn['callee']['name'], size, ' (for the value 0, abs(%s) - 1 wraps to SIZE_MAX)' % m_['decl']['name'] if 'abs(' in I else '')
+    # E7: the container is a string handed back by c3d::readString, which stops at the first NUL byte of what it read: it may
+    # be shorter than the number of bytes asked for, and nothing relates the index to its actual size
+    cn_ = f.nodes[f.strip(s.cont_node, 'all')]
+    if cn_['k'] == 'DeclRefExpr' and cn_['decl'].get('dk') == 'local' and 'basic_string' in str(cn_['decl'].get('type', '')):
+        from paths import local_init as _li3
+        ini = _li3(f, cn_['decl']['id'])
+        src_ = None
+        if ini is not None:
+            for x in [ini] + list(f.descendants(ini)):
+                xn = f.nodes[x]
+                if xn['k'] == 'CXXMemberCallExpr' and xn['callee']['name'] == 'readString' and xn['callee'].get('classq') == 'ezc3d::c3d':
+                    src_ = xn
+        if src_ is not None and not any(size in (l, r) for l, op, r, _ in facts):
+            return 'the string comes from readString(), which stops at the first NUL byte it has read: it can be shorter than the %s the index runs to, and nothing compares the index with %s' % (
+                next((r for l, op, r, _ in facts if l == I and op in ('<', '<=')), 'count'), size)
     # E4b: the index is bounded only by a member that this very function fills from the file, and nothing relates that
     # member (or the index) to the size of the container
     for l, op, r, _ in facts:
@@ -996,7 +1037,11 @@ def rule(prog, res, scope=None, rule_name='index-site'):
             per['justified'] = per.get('justified', 0) + 1
             continue
         if j:
-            res.undecided(rule_name, inst, f.loc(s.nid), detail + ' (spec/invariants.json justifies this site, but the mechanical part of the justification no longer holds on this tree)', function=f.sig, expr=key)
+            ev_ = overrun_evidence(prog, s, ctx)
+            if ev_:
+                res.viol(rule_name, inst, f.loc(s.nid), '%s: %s (the justification of spec/invariants.json no longer holds on this tree)' % (detail, ev_), function=f.sig, expr=key)
+            else:
+                res.undecided(rule_name, inst, f.loc(s.nid), detail + ' (spec/invariants.json justifies this site, but the mechanical part of the justification no longer holds on this tree)', function=f.sig, expr=key)
         else:
             ev_ = overrun_evidence(prog, s, ctx)
             if ev_:
